@@ -27,7 +27,7 @@ theorem primsOK_and {P : Params} {h : Nat} {R₁ R₂ : Rel DB} (o1 : PrimsOK P 
   subBal a t v ha := (o1.subBal a t v ha).and (o2.subBal a t v ha)
   insertRate a b := (o1.insertRate a b).and (o2.insertRate a b)
   insertHistBatch r := (o1.insertHistBatch r).and (o2.insertHistBatch r)
-  insertHistTx r := (o1.insertHistTx r).and (o2.insertHistTx r)
+  insertHistTx r _ := (o1.insertHistTx r trivial).and (o2.insertHistTx r trivial)
   insertLookup r := (o1.insertLookup r).and (o2.insertLookup r)
   setExecuted a b := (o1.setExecuted a b).and (o2.setExecuted a b)
   setConvertedAmount a b c := (o1.setConvertedAmount a b c).and (o2.setConvertedAmount a b c)
@@ -59,7 +59,7 @@ theorem primsOK_logGrows (P : Params) (h : Nat) : PrimsOK P h logGrows where
     (guarded_keep (·.statusLog) logKeep (fun _ => rfl))
   insertRate _ _ := guarded_keep (·.statusLog) logKeep (fun _ => rfl)
   insertHistBatch _ := guarded_keep (·.statusLog) logKeep (fun _ => rfl)
-  insertHistTx _ := guarded_keep (·.statusLog) logKeep (fun _ => rfl)
+  insertHistTx _ _ := guarded_keep (·.statusLog) logKeep (fun _ => rfl)
   insertLookup _ := guarded_keep (·.statusLog) logKeep (fun s => by split <;> rfl)
   setExecuted hash v := Step.guarded (fun s => by show _ <+: _; exact List.prefix_append _ _)
   setConvertedAmount _ _ _ := guarded_keep (·.statusLog) logKeep (fun _ => rfl)
